@@ -452,11 +452,24 @@ pub fn c05(ctx: &Ctx) -> Report {
             s6_filterblock(d, rep, rng, 60);
         }
         for i in 0..n {
-            let c = match gen_case(d, rep, rng, if i % 8 == 0 { 150 } else { 25 }) {
-                Some(c) => c,
-                None => continue,
+            // worker 5, first case: a file beyond 2 MiB (26 values of 100 KB, one block each): handle offsets that
+            // need 4-byte varints in the index block and the footer
+            let huge = t == 5 % ctx.threads.max(1) && i == 0;
+            let c = if huge {
+                let cfg = WCfg { cmp: CmpKind::Bytewise, block_size: 4096, restart: 16, snappy: false, pol: PolKind::Bloom(10) };
+                let es: Vec<(Vec<u8>, Vec<u8>)> = (0..26).map(|j| (format!("h{:02}", j).into_bytes(), { let mut v = rng.any_bytes(64); v.resize(100_000, j as u8); v })).collect();
+                rep.count("tables_over_2mib");
+                match build_case(d, rep, &cfg, &es) {
+                    Some(c) => c,
+                    None => continue,
+                }
+            } else {
+                match gen_case(d, rep, rng, if i % 8 == 0 { 150 } else { 25 }) {
+                    Some(c) => c,
+                    None => continue,
+                }
             };
-            rep.case(&format!("{} {}", c.cfg.describe(), entries_str(&c.es)), c.es.len() >= 2);
+            rep.case(&format!("{} {}", c.cfg.describe(), if huge { "26 entries of 100 KB".to_string() } else { entries_str(&c.es) }), c.es.len() >= 2);
             let is_bloom = matches!(c.cfg.pol, PolKind::Bloom(_));
             let v = d.ask(&format!("judge_c05 {} {} {} {} {}", c.cfg.cmp.name(), hex(&c.img), entries_str(&c.es), hex(c.cfg.pol.disk_name().as_bytes()), is_bloom));
             rep.count("programs");
